@@ -41,6 +41,9 @@ THEOREMS = [
     "PorepyVerif.C13.GridS.mpsa2d_nonneumann_exact",
     "PorepyVerif.C13.GridS.mpsa2d_rigid_motion_zero_traction",
     "PorepyVerif.C13.GridS.apply_eq",
+    "PorepyVerif.C13.GridS.admissible_of_manifold",
+    "PorepyVerif.C13.GridS.mpsa2d_all_dirichlet_exact",
+    "PorepyVerif.C13.GridS.cell_balance_zero",
 ]
 LEAN_DIRS = ["C11"]  # Model/Lemmas import C11's Gauss-Jordan elimination and certificate lemmas
 LEAN_MODULES = ["PorepyVerif.C13.Props"]
@@ -55,6 +58,7 @@ RULE = ("grids: 2-D Cartesian / structured triangles / Delaunay triangles, 3-D C
         "Dirichlet/Neumann mix (2-D: any mix with >=1 Dirichlet face, incl. whole sides and corners with two Neumann faces; 3-D: greedy random "
         "sets in which no two Neumann faces share an edge); continuity point eta default or 0, 1/4, 1/3, 1/2; inverter python or numba. "
         "non-trivial = at least 2 cells and a non-zero field; distinct = distinct (grid, material, field, boundary set) tuples. "
+        "Strata: sub-face boundary-condition entry (_stress_discretization), assemble_matrix_rhs balance and solve, repeated discretize, coordinates scaled by 2^-10 / 2^10, stiffness scaled by 2^30, boundary face list permuted with duplicates. "
         "Tie: every node of 2-D grids / up to 8 sampled nodes of 3-D grids, the region's real sub-cell gradients for random non-linear data.")
 TRUSTED = [
     "modelled, not verified: the vectorised assembly of the local systems in Mpsa._create_inverse_gradient_matrix / _tensor_vector_prod / "
@@ -92,6 +96,7 @@ ASSUMPTIONS = ["each local system is uniquely solvable (hypothesis Unisolvent of
                "boundary sets are admissible in the sense of the property statement (generator enforces it, oracle re-checks it)"]
 
 _CACHE = {}
+MAT_KEYS = ("stress", "bound_stress", "bound_displacement_cell", "bound_displacement_face")
 
 
 # ----------------------------------------------------------------------------- grids
@@ -135,6 +140,8 @@ def build_grid(gs):
         for v in range(g.num_nodes):
             for k in range(d):
                 g.nodes[k, v] += pert * h[k] * r.randrange(-32, 33) / 64
+    if gs.get("scale"):  # extreme-scale stratum: power of two, exact in binary64
+        g.nodes = g.nodes * float(_F(gs["scale"]))
     g.compute_geometry()
     return g
 
@@ -240,6 +247,19 @@ def gen_case(rng, tier):
     eta = rng.choice([None, None, None, None, None, "0", "1/4", "1/3", "1/2"])
     case = {"grid": gs, "lam": str(lam), "mu": str(mu), "field": ft, "A": [[str(x) for x in r] for r in A], "b": [str(x) for x in b],
             "neu": neu, "eta": eta, "inverter": rng.choice(["python", "python", "numba"]), "rseed": rng.randrange(10**6)}
+    # strata (counts reported by stats): entry point, extreme scales, permuted / duplicated boundary face lists, repeated discretisation
+    u01 = rng.random()
+    if u01 < 0.2:
+        case["entry"] = "subface"  # expert entry: boundary condition given per sub-face to Mpsa._stress_discretization
+    u02 = rng.random()
+    if u02 < 0.12:
+        gs["scale"] = rng.choice(["1/1024", "1024"])
+    elif u02 < 0.24:
+        case["lam"], case["mu"] = str(lam * 2**30), str(mu * 2**30)  # GPa-like stiffness
+    if rng.random() < 0.25:
+        case["bc_perm"] = rng.randrange(10**6)  # boundary faces handed over unsorted, a third of them twice
+    if rng.random() < 0.15:
+        case["repeat"] = True  # discretize twice into the same dictionary
     if dim == 3:
         k = 4 if not big else 8
         case["tie_nodes"] = sorted(rng.sample(range(g.num_nodes), min(k, g.num_nodes)))
@@ -279,7 +299,12 @@ def _setup(case):
     bf = g.get_all_boundary_faces()
     neu = set(case["neu"])
     names = ["neu" if int(f) in neu else "dir" for f in bf]
-    bc = pp.BoundaryConditionVectorial(g, bf, names)
+    order = list(range(len(bf)))
+    if case.get("bc_perm") is not None:
+        r = random.Random(case["bc_perm"])
+        r.shuffle(order)
+        order = order + order[: len(order) // 3]
+    bc = pp.BoundaryConditionVectorial(g, bf[order], [names[i] for i in order])
     C = pp.FourthOrderTensor(mu * np.ones(g.num_cells), lam * np.ones(g.num_cells))
     S = mu * (A + A.T) + lam * np.trace(A) * np.eye(d)
     uc = A @ g.cell_centers[:d] + b[:, None]
@@ -370,6 +395,74 @@ def _oracle_checks(case, s, cls):
         f = int(np.flatnonzero(is_dir)[np.argmax(eu[is_dir])])
         return {"what": f"boundary displacement reconstruction on Dirichlet face {f} is {ub[:, f].tolist()} but u(x_f) = {s['uf'][:, f].tolist()} "
                         f"(relative error {eu[f]:.3g}; {cls}, field {ft})", "key": f"bound-displacement-{cls}"}
+    return _oracle_entries(case, s, cls, M, st, su)
+
+
+def _oracle_entries(case, s, cls, M, st, su):
+    """Neighbouring entry points the property's callers go through: assemble_matrix_rhs (the affine field solves the assembled
+    system with zero source), a repeated discretize into the same dictionary, the per-sub-face boundary condition entry."""
+    import porepy as pp
+    from porepy.numerics.fv import _fvutils
+
+    g, d = s["g"], s["d"]
+    u, bcv = s["uc"].ravel("F"), s["bcv"].ravel("F")
+    par = {"fourth_order_tensor": s["C"], "bc": s["bc"], "inverter": case.get("inverter", "python"), "bc_values": bcv,
+           "source": np.zeros(d * g.num_cells)}
+    if s["eta"] is not None:
+        par["mpsa_eta"] = s["eta"]
+    data = pp.initialize_data({}, "mechanics", par)
+    discr = pp.Mpsa("mechanics")
+    try:
+        discr.discretize(g, data)
+        if case.get("repeat"):
+            first = {k: data[pp.DISCRETIZATION_MATRICES]["mechanics"][k].copy() for k in MAT_KEYS}
+            discr.discretize(g, data)
+            for k in MAT_KEYS:
+                if (first[k] != data[pp.DISCRETIZATION_MATRICES]["mechanics"][k]).nnz:
+                    return {"what": f"second discretize into the same dictionary changed matrix {k} ({cls})", "key": f"repeat-differs-{k}"}
+        A, rhs = discr.assemble_matrix_rhs(g, data)
+    except Exception as e:
+        return {"what": f"discretize/assemble_matrix_rhs raised {type(e).__name__}: {e} on {cls}", "key": f"assemble-raises-{type(e).__name__}"}
+    bal = np.abs(A @ u - rhs)
+    if bal.max() / st > TOL:
+        c = int(np.argmax(bal)) // d
+        return {"what": f"assemble_matrix_rhs: the affine field does not satisfy the momentum balance of cell {c} "
+                        f"(|A u - rhs| = {bal.max():.3g}, relative {bal.max() / st:.3g}; {cls})", "key": f"assemble-balance-{cls}"}
+    if case["neu"] != sorted(int(f) for f in s["bf"]) and A.shape[0] <= 240:
+        # Solvability is NOT part of the property (e.g. a single column of cells with Neumann sides and Dirichlet ends has an
+        # exactly singular MPSA stiffness matrix although every affine field is reproduced): only well-conditioned systems.
+        Ad = A.toarray()
+        sv = np.linalg.svd(Ad, compute_uv=False)
+        if sv[-1] > 1e-10 * sv[0]:
+            sol = np.linalg.solve(Ad, rhs)
+            if np.abs(sol - u).max() / su > max(TOL, 1e-13 * sv[0] / sv[-1]):
+                return {"what": f"solution of the assembled system differs from the affine field by {np.abs(sol - u).max():.3g} ({cls})",
+                        "key": f"solve-linear-{cls}"}
+    if case.get("entry") == "subface":
+        stp = _fvutils.SubcellTopology(g)
+        bsub = _fvutils.boundary_to_sub_boundary(s["bc"], stp)
+        try:
+            S, B, hc, hb = discr._stress_discretization(g, s["C"], bsub, eta=s["eta"], inverter=case.get("inverter", "python"))
+        except Exception as e:
+            return {"what": f"_stress_discretization with a sub-face boundary condition raised {type(e).__name__}: {e} ({cls})",
+                    "key": f"subface-raises-{type(e).__name__}"}
+        nn = np.diff(g.face_nodes.indptr)
+        fno = stp.fno_unique
+        isneu = np.array([s["names"].get(int(f), "int") == "neu" for f in fno])
+        bsv = (s["bcv"][:, fno] / np.where(isneu, nn[fno], 1)).ravel("F")  # Neumann data are integrated over the sub-face
+        t = (S @ u + B @ bsv).reshape((d, -1), order="F")
+        err = np.abs(t - s["T"][:, fno] / nn[fno]).max(axis=0) / st
+        if err.max() > TOL:
+            k = int(np.argmax(err))
+            return {"what": f"sub-face entry: traction on sub-face {k} (face {int(fno[k])}) is {t[:, k].tolist()} but sigma(A) n_f/#nodes = "
+                            f"{(s['T'][:, fno[k]] / nn[fno[k]]).tolist()} (relative error {err[k]:.3g}; {cls})", "key": f"subface-traction-{cls}"}
+        ub = (hc @ u + hb @ bsv).reshape((d, -1), order="F")
+        dirf = [f for f, nm in s["names"].items() if nm == "dir"]
+        if dirf:
+            eu = np.abs(ub[:, dirf] - s["uf"][:, dirf]).max(axis=0) / su
+            if eu.max() > TOL:
+                return {"what": f"sub-face entry: displacement reconstruction on Dirichlet face {dirf[int(np.argmax(eu))]} wrong "
+                                f"(relative error {eu.max():.3g}; {cls})", "key": f"subface-displacement-{cls}"}
     return None
 
 
@@ -541,9 +634,6 @@ def _fl(v):
     return [frac(float(x)) for x in v]
 
 
-MAT_KEYS = ("stress", "bound_stress", "bound_displacement_cell", "bound_displacement_face")
-
-
 def _grid_op(case, s):
     """The whole 2-D grid as the code sees it (topology arrays, geometry arrays, boundary types)."""
     from porepy.numerics.fv import _fvutils
@@ -586,7 +676,7 @@ def _grid_impl(case, s, M):
     u, bcv = s["uc"].ravel("F"), s["bcv"].ravel("F")
     t = M["stress"] @ u + M["bound_stress"] @ bcv
     ub = M["bound_displacement_cell"] @ u + M["bound_displacement_face"] @ bcv
-    out = {"flags": {"wf": True, "admissible": True, "certified": True},
+    out = {"flags": {"wf": True, "admissible": True, "certified": True, "manifold": True},
            "lin_traction": [float(x) / st_lin for x in t], "lin_disp": [float(x) / su_lin for x in ub]}
     for k in MAT_KEYS:
         out[k] = (M[k].toarray() / sc[k]).tolist()
@@ -596,7 +686,7 @@ def _grid_impl(case, s, M):
 def _grid_model(case, s, o):
     if "err" in o:
         return {"driver_error": o}
-    flags = {k: o.get(k) for k in ("wf", "admissible", "certified")}
+    flags = {k: o.get(k) for k in ("wf", "admissible", "certified", "manifold") if k in o}
     if not o.get("certified"):
         return {"flags": flags}
     g = s["g"]
@@ -792,6 +882,16 @@ def stats(cases, impl_outs):
     bcs = Counter("alldir" if not c["neu"] else "mixed" for c in cases)
     regs = [r for o in impl_outs if isinstance(o, dict) and "regions" in o for r in o["regions"]]
     return {"grids": dict(kinds), "fields": dict(fields), "boundary": dict(bcs),
+            "strata": {"entry_subface_bc": sum(1 for c in cases if c.get("entry") == "subface"),
+                       "coordinates_scaled_2^-10_or_2^10": sum(1 for c in cases if c["grid"].get("scale")),
+                       "stiffness_scaled_2^30": sum(1 for c in cases if _F(c["mu"]) >= 2**20),
+                       "bc_faces_permuted_with_duplicates": sum(1 for c in cases if c.get("bc_perm") is not None),
+                       "repeated_discretize": sum(1 for c in cases if c.get("repeat")),
+                       "single_cell": sum(1 for c in cases if c["grid"]["kind"] == "cart" and int(np.prod(c["grid"]["n"])) == 1),
+                       "single_row_of_cells": sum(1 for c in cases if c["grid"]["kind"] != "deltri" and sorted(c["grid"]["n"])[-2] == 1),
+                       "all_neumann_but_one": sum(1 for c in cases if len(c["grid"]["n"]) == 2 and len(c["neu"]) >= 3 and c.get("field")),
+                       "lambda_zero": sum(1 for c in cases if _F(c["lam"]) == 0),
+                       "lambda_over_mu_128": sum(1 for c in cases if _F(c["mu"]) and _F(c["lam"]) / _F(c["mu"]) == 128)},
             "whole_grid_ties_4_matrices_entrywise": sum(1 for c in cases if c.get("grid_tie")),
             "no_claim_singular_local_system": sum(1 for c in cases if degenerate(c)),
             "perturbed": sum(1 for c in cases if c["grid"].get("pert", "0") != "0"),
